@@ -1,4 +1,22 @@
-//! Block `est`: estimated-time network (C15) — PROBE VERSION (work in progress).
+//! Block `est`: estimated-time network (C15).
+//!
+//! For every generated scenario (single track with 0..k sidings of one or two links, also parallel to the
+//! first / last segment so that there are several origin and destination links; trains in both
+//! directions; several departure times) the real `make_est_times` is run.  A `verif-hooks` observer
+//! hands out the node vector just before `update_times_forward`; the two (private) passes are then also
+//! driven by hand through the hook wrappers, which must reproduce the function's own result.
+//!
+//! Ops (the Lean driver must print the same answer):
+//!   est_forward  <nodes> <depart>                       -> ok <nodes> | panic     real update_times_forward
+//!   est_backward <nodes>                                -> ok <nodes> | panic     real update_times_backward
+//!   est_check    <net> <origs> <dests> <tol> <nodes>    -> ok b1..b7              brute-force oracle verdicts
+//!   est_fwd_check <nodes> <depart>                      -> ok T|F                 shortest-path recomputation
+//!   running_time <first> <last>                         -> ok <hours>
+//! The passes are additionally run on the same topologies with re-drawn durations (many more relinking
+//! patterns, ties), and the checkers on mutated graphs (must be rejected by both sides alike).
+//!
+//! ORACLE (independent of the model): every clause of C15 is re-checked on the implementation's output by
+//! exhaustive enumeration of all start-to-end walks.
 use crate::dispgen::{gen_train, location};
 use crate::netgen::*;
 use crate::prng::Rng;
@@ -7,10 +25,15 @@ use altrios_core::meet_pass::disp_structs::*;
 use altrios_core::meet_pass::est_times::{verif_hooks, EstTime};
 use altrios_core::prelude::*;
 use altrios_core::track::*;
+use altrios_core::uc;
 use altrios_core::validate::*;
 use serde_json::json;
 use std::cell::RefCell;
 use std::rc::Rc;
+
+pub const TOL: f64 = 1e-6;
+
+// ------------------------------------------------------------------------------------------------ networks
 
 #[derive(Clone, Debug)]
 pub struct EstNet {
@@ -39,7 +62,7 @@ fn flat_link(idx: u32, len: f64, speed: f64, e0: f64, e1: f64) -> Link {
 /// single track of `n_main` segments with sidings parallel to the segments in `siding_at` (any segment,
 /// also the first and the last: those serve as alternative origins / destinations; never two adjacent
 /// ones); a siding is one link or two links in series; every link has a flipped twin.
-pub fn gen_est_net(r: &mut Rng, n_main: usize, siding_at: &[(usize, usize)]) -> EstNet {
+pub fn gen_est_net(r: &mut Rng, n_main: usize, siding_at: &[(usize, usize)], equal_sidings: bool) -> EstNet {
     let n = n_main as u32;
     let mut next_idx = 2 * n + 1;
     let fm = |k: usize| (k as u32) + 1;
@@ -63,20 +86,24 @@ pub fn gen_est_net(r: &mut Rng, n_main: usize, siding_at: &[(usize, usize)]) -> 
     }
     let mut sidings = vec![];
     for &(k, parts) in siding_at {
-        let slen = lens[k] * *r.pick(&[1.0, 1.0, 1.25, 0.75]);
-        let sspeed = *r.pick(&[10.0, 10.0, 15.0, 20.0]);
+        // `equal_sidings`: the siding is an exact copy of the main segment (ties between the branches)
+        let slen = if equal_sidings { lens[k] } else { lens[k] * *r.pick(&[1.0, 1.0, 1.25, 0.75]) };
+        let sspeed = if equal_sidings { speeds[k] } else { *r.pick(&[10.0, 10.0, 15.0, 20.0, 25.0]) };
+        let parts = if equal_sidings { 1 } else { parts };
         let fw: Vec<u32> = (0..parts).map(|i| next_idx + i as u32).collect();
         let rv: Vec<u32> = (0..parts).map(|i| next_idx + (parts + i) as u32).collect();
         next_idx += 2 * parts as u32;
         let plen = slen / parts as f64;
+        let (e0, e1) = if equal_sidings {
+            (net[fm(k) as usize].elevs[0].elev.value, net[fm(k) as usize].elevs[1].elev.value)
+        } else { (100.0, 100.0) };
         for i in 0..parts {
-            // forward part i, reverse part (parts-1-i) is its flip
-            let mut s = flat_link(fw[i], plen, sspeed, 100.0, 100.0);
+            let mut s = flat_link(fw[i], plen, sspeed, e0, e1);
             s.idx_prev = LinkIdx::new(if i > 0 { fw[i - 1] } else if k > 0 { fm(k - 1) } else { 0 });
             s.idx_next = LinkIdx::new(if i + 1 < parts { fw[i + 1] } else if k + 1 < n_main { fm(k + 1) } else { 0 });
             s.idx_flip = LinkIdx::new(rv[parts - 1 - i]);
             net[fw[i] as usize] = s;
-            let mut t = flat_link(rv[i], plen, sspeed, 100.0, 100.0);
+            let mut t = flat_link(rv[i], plen, sspeed, e1, e0);
             t.idx_prev = LinkIdx::new(if i > 0 { rv[i - 1] } else if k + 1 < n_main { rm(k + 1) } else { 0 });
             t.idx_next = LinkIdx::new(if i + 1 < parts { rv[i + 1] } else if k > 0 { rm(k - 1) } else { 0 });
             t.idx_flip = LinkIdx::new(fw[parts - 1 - i]);
@@ -92,61 +119,574 @@ pub fn gen_est_net(r: &mut Rng, n_main: usize, siding_at: &[(usize, usize)]) -> 
         }
         sidings.push((k, fw, rv));
     }
+    // the total length of net is exactly `total` only when `parts` was not overridden
+    net.truncate(next_idx as usize);
     EstNet { net, main_fwd: (0..n_main).map(fm).collect(), main_rev: (0..n_main).map(rm).collect(), sidings }
 }
 
-fn ty(t: EstType) -> &'static str {
-    match t { EstType::Arrive => "A", EstType::Clear => "C", EstType::Fake => "F" }
+// ------------------------------------------------------------------------------------------------ graph view
+
+#[derive(Clone, Copy, Debug, PartialEq)]
+pub struct Nd {
+    pub ts: f64,
+    pub ttn: f64,
+    pub dist: f64,
+    pub speed: f64,
+    pub next: usize,
+    pub next_alt: usize,
+    pub prev: usize,
+    pub prev_alt: usize,
+    pub link: usize,
+    /// 0 arrive, 1 clear, 2 fake
+    pub ty: u8,
 }
 
-fn dump(v: &[EstTime]) -> Vec<String> {
-    v.iter().enumerate().map(|(i, e)| format!("{:3} {}{:<3} n={:<3} na={:<3} p={:<3} pa={:<3} ts={:10.3} ttn={:9.3} d={:9.1} v={:6.2}",
-        i, ty(e.link_event.est_type), e.link_event.link_idx.idx(), e.idx_next, e.idx_next_alt, e.idx_prev, e.idx_prev_alt,
-        e.time_sched.value, e.time_to_next.value, e.dist_to_next.value, e.speed.value)).collect()
+fn nd(e: &EstTime) -> Nd {
+    Nd {
+        ts: e.time_sched.value, ttn: e.time_to_next.value, dist: e.dist_to_next.value, speed: e.speed.value,
+        next: e.idx_next as usize, next_alt: e.idx_next_alt as usize, prev: e.idx_prev as usize, prev_alt: e.idx_prev_alt as usize,
+        link: e.link_event.link_idx.idx(),
+        ty: match e.link_event.est_type { EstType::Arrive => 0, EstType::Clear => 1, EstType::Fake => 2 },
+    }
+}
+fn est(n: &Nd) -> EstTime {
+    EstTime {
+        time_sched: uc::S * n.ts, time_to_next: uc::S * n.ttn, dist_to_next: uc::M * n.dist, speed: uc::MPS * n.speed,
+        idx_next: n.next as u32, idx_next_alt: n.next_alt as u32, idx_prev: n.prev as u32, idx_prev_alt: n.prev_alt as u32,
+        link_event: LinkEvent { link_idx: LinkIdx::new(n.link as u32), est_type: match n.ty { 0 => EstType::Arrive, 1 => EstType::Clear, _ => EstType::Fake } },
+    }
+}
+fn nds(v: &[EstTime]) -> Vec<Nd> { v.iter().map(nd).collect() }
+fn ests(v: &[Nd]) -> Vec<EstTime> { v.iter().map(est).collect() }
+
+fn nd_tok(n: &Nd) -> String {
+    format!("{} {} {} {} {} {} {} {} {} {}", f(n.ts), f(n.ttn), f(n.dist), f(n.speed), n.next, n.next_alt, n.prev, n.prev_alt, n.link,
+        match n.ty { 0 => "A", 1 => "C", _ => "F" })
+}
+fn nds_tok(v: &[Nd]) -> String { seq(v, nd_tok) }
+fn nds_json(v: &[Nd]) -> serde_json::Value {
+    json!(v.iter().map(|n| json!([n.ts, n.ttn, n.dist, n.speed, n.next, n.next_alt, n.prev, n.prev_alt, n.link, n.ty])).collect::<Vec<_>>())
+}
+fn same_nds(a: &[Nd], b: &[Nd]) -> bool {
+    let fe = |x: f64, y: f64| (x.is_nan() && y.is_nan()) || x == y;
+    a.len() == b.len() && a.iter().zip(b).all(|(p, q)| fe(p.ts, q.ts) && fe(p.ttn, q.ttn) && fe(p.dist, q.dist) && fe(p.speed, q.speed)
+        && p.next == q.next && p.next_alt == q.next_alt && p.prev == q.prev && p.prev_alt == q.prev_alt && p.link == q.link && p.ty == q.ty)
+}
+
+/// track adjacency as the checkers see it: per link (idx_next, idx_next_alt)
+fn adj_of(net: &[Link]) -> Vec<(usize, usize)> { net.iter().map(|l| (l.idx_next.idx(), l.idx_next_alt.idx())).collect() }
+fn adj_tok(a: &[(usize, usize)]) -> String { seq(a, |p| format!("{} {}", p.0, p.1)) }
+fn us_tok(a: &[usize]) -> String { seq(a, |p| format!("{}", p)) }
+
+// ------------------------------------------------------------------------------------------------ brute-force oracle
+
+#[derive(Clone, Debug, Default, PartialEq)]
+pub struct Verdict {
+    pub links: bool,
+    pub walks: bool,
+    pub route: bool,
+    pub fin: bool,
+    pub nonneg: bool,
+    pub tight: bool,
+    pub alt: bool,
+    pub detail: Vec<(String, String)>,
+    pub n_walks: usize,
+}
+impl Verdict {
+    fn bits(&self) -> String {
+        format!("{} {} {} {} {} {} {}", b(self.links), b(self.walks), b(self.route), b(self.fin), b(self.nonneg), b(self.tight), b(self.alt))
+    }
+    fn note(&mut self, clause: &str, d: String) { if self.detail.len() < 12 { self.detail.push((clause.into(), d)); } }
+}
+
+/// clause "links": index ranges, boundary nodes, every forward link mirrored by a backward link and vice versa
+fn links_ok(g: &[Nd], v: &mut Verdict) -> bool {
+    let n = g.len();
+    if n < 2 { v.note("links_mutual", "fewer than two nodes".into()); return false; }
+    let mut ok = true;
+    for (i, x) in g.iter().enumerate() {
+        let mut bad = |why: &str| { ok = false; v.note("links_mutual", format!("node {}: {}", i, why)); };
+        if x.next >= n || x.next_alt >= n || x.prev >= n || x.prev_alt >= n { bad("index out of range"); continue; }
+        if i == 0 && !(x.next == 1 && x.next_alt == 0 && x.prev == 0 && x.prev_alt == 0) { bad("start node malformed"); }
+        if i == 1 && !(x.prev == 0 && x.prev_alt == 0) { bad("second node has a predecessor other than the start"); }
+        if i >= 2 && x.prev == 0 { bad("no idx_prev"); }
+        if i == n - 1 && !(x.next == 0 && x.next_alt == 0) { bad("end node has a successor"); }
+        if i < n - 1 && x.next == 0 { bad("no idx_next"); }
+        if x.next != 0 && !(g[x.next].prev == i || g[x.next].prev_alt == i) { bad("idx_next not mirrored by idx_prev/_alt"); }
+        if x.next_alt != 0 && !(g[x.next_alt].prev == i || g[x.next_alt].prev_alt == i) { bad("idx_next_alt not mirrored by idx_prev/_alt"); }
+        if x.prev != 0 && !(g[x.prev].next == i || g[x.prev].next_alt == i) { bad("idx_prev not mirrored by idx_next/_alt"); }
+        if x.prev_alt != 0 && !(g[x.prev_alt].next == i || g[x.prev_alt].next_alt == i) { bad("idx_prev_alt not mirrored by idx_next/_alt"); }
+        if x.next_alt != 0 && x.next_alt == x.next { bad("idx_next_alt equals idx_next"); }
+        if x.prev_alt != 0 && x.prev_alt == x.prev { bad("idx_prev_alt equals idx_prev"); }
+    }
+    ok
+}
+
+fn succs(x: &Nd) -> Vec<(usize, bool)> {
+    let mut s = vec![];
+    if x.next != 0 { s.push((x.next, false)); }
+    if x.next_alt != 0 { s.push((x.next_alt, true)); }
+    s
+}
+
+/// no cycle anywhere (three-colour depth-first search over all nodes)
+fn acyclic(g: &[Nd]) -> bool {
+    let n = g.len();
+    let mut col = vec![0u8; n];
+    for s in 0..n {
+        if col[s] != 0 { continue; }
+        let mut st: Vec<(usize, usize)> = vec![(s, 0)];
+        col[s] = 1;
+        while let Some(&(u, k)) = st.last() {
+            let su = succs(&g[u]);
+            if k < su.len() {
+                st.last_mut().unwrap().1 += 1;
+                let w = su[k].0;
+                if col[w] == 1 { return false; }
+                if col[w] == 0 { col[w] = 1; st.push((w, 0)); }
+            } else { col[u] = 2; st.pop(); }
+        }
+    }
+    true
+}
+
+/// all maximal walks from node 0 (each a list of node indices); None if more than `cap`
+fn all_walks(g: &[Nd], cap: usize) -> Option<Vec<Vec<usize>>> {
+    let mut out = vec![];
+    let mut path = vec![0usize];
+    fn rec(g: &[Nd], path: &mut Vec<usize>, out: &mut Vec<Vec<usize>>, cap: usize) -> bool {
+        let u = *path.last().unwrap();
+        let su = succs(&g[u]);
+        if su.is_empty() { out.push(path.clone()); return out.len() <= cap; }
+        for (w, _) in su {
+            path.push(w);
+            if !rec(g, path, out, cap) { return false; }
+            path.pop();
+        }
+        true
+    }
+    if rec(g, &mut path, &mut out, cap) { Some(out) } else { None }
+}
+
+/// the property's route clause on one start-to-end walk, stated on the event sequence as a whole
+fn route_of_walk(g: &[Nd], w: &[usize], adj: &[(usize, usize)], origs: &[usize], dests: &[usize]) -> Result<(), (String, String)> {
+    let ev: Vec<(usize, bool)> = w.iter().filter(|&&i| g[i].ty != 2).map(|&i| (g[i].link, g[i].ty == 0)).collect();
+    let arr: Vec<usize> = ev.iter().filter(|e| e.1).map(|e| e.0).collect();
+    let clr: Vec<usize> = ev.iter().filter(|e| !e.1).map(|e| e.0).collect();
+    let c = "route_contiguous".to_string();
+    if arr.is_empty() { return Err((c, "no arrive event on the walk".into())); }
+    if !origs.contains(&arr[0]) { return Err((c, format!("first link {} is not an origin", arr[0]))); }
+    if !dests.contains(arr.last().unwrap()) { return Err((c, format!("last link {} is not a destination", arr.last().unwrap()))); }
+    for k in 1..arr.len() {
+        let (a, bb) = (arr[k - 1], arr[k]);
+        let ok = a < adj.len() && bb != 0 && (adj[a].0 == bb || adj[a].1 == bb);
+        if !ok { return Err((c, format!("link {} does not follow link {} in the track network", bb, a))); }
+    }
+    // each segment cleared after it is entered: at every prefix the clears are a prefix of the arrives; all cleared at the end
+    let c = "clear_after_arrive".to_string();
+    let (mut na, mut nc) = (0usize, 0usize);
+    for e in &ev {
+        if e.1 { na += 1; } else {
+            if nc >= na { return Err((c, format!("link {} cleared before it is entered", e.0))); }
+            if arr[nc] != e.0 { return Err((c, format!("clear of link {} out of route order (expected {})", e.0, arr[nc]))); }
+            nc += 1;
+        }
+    }
+    if clr.len() != arr.len() { return Err((c, format!("{} links entered but {} cleared", arr.len(), clr.len()))); }
+    Ok(())
+}
+
+pub fn oracle(g: &[Nd], adj: &[(usize, usize)], origs: &[usize], dests: &[usize], tol: f64) -> Verdict {
+    let mut v = Verdict::default();
+    v.links = links_ok(g, &mut v);
+    v.walks = v.links && acyclic(g);
+    if v.links && !v.walks { v.note("walks_reach_end", "the graph has a cycle".into()); }
+    if v.walks {
+        match all_walks(g, 200_000) {
+            None => { v.route = false; v.note("walks_capped", "more than 200000 walks".into()); }
+            Some(ws) => {
+                v.n_walks = ws.len();
+                v.route = true;
+                for w in &ws {
+                    if *w.last().unwrap() != g.len() - 1 { v.walks = false; v.route = false; v.note("walks_reach_end", format!("walk stops at node {}", w.last().unwrap())); break; }
+                    if let Err((c, d)) = route_of_walk(g, w, adj, origs, dests) { v.route = false; v.note(&c, format!("{} on walk {:?}", d, w)); break; }
+                }
+            }
+        }
+    }
+    v.fin = g.iter().all(|x| x.ts.is_finite() && x.ttn.is_finite());
+    if !v.fin { v.note("times_finite", "a scheduled time or duration is NaN or infinite".into()); }
+    if v.fin {
+        v.nonneg = true;
+        for (i, x) in g.iter().enumerate() {
+            if !(0.0 <= x.ttn) { v.nonneg = false; v.note("durations_nonneg", format!("node {} has negative time_to_next {}", i, x.ttn)); }
+            if !(0.0 <= x.ts) { v.nonneg = false; v.note("time_sched_nonneg", format!("node {} ({}) has negative time_sched {}", i, ["arrive", "clear", "fake"][x.ty as usize], x.ts)); }
+        }
+    }
+    if v.links && v.fin {
+        v.tight = true;
+        v.alt = true;
+        // predecessor-centric: for every node, every node that links to it
+        for (i, x) in g.iter().enumerate() {
+            for (q, y) in g.iter().enumerate() {
+                if y.next == i && i != 0 && !((x.ts - (y.ts + y.ttn)).abs() <= tol) {
+                    v.tight = false;
+                    v.note("next_links_tight", format!("node {} at {} but predecessor {} (idx_next) gives {} + {}", i, x.ts, q, y.ts, y.ttn));
+                }
+                if y.next_alt == i && i != 0 && !(x.ts <= y.ts + tol) {
+                    v.alt = false;
+                    v.note("alt_not_later", format!("alternate node {} at {} later than its split node {} at {}", i, x.ts, q, y.ts));
+                }
+            }
+        }
+    }
+    v
+}
+
+/// the property's two time clauses as it words them (independent of `tight` / `alt`)
+fn oracle_time_clauses(ctx: &mut Ctx, case: &str, g: &[Nd], tol: f64, input: &serde_json::Value) {
+    for (i, x) in g.iter().enumerate() {
+        if i == 0 { continue; }
+        // primary predecessor: idx_prev, when it reaches this node by its primary link
+        let p = x.prev;
+        if g[p].next == i {
+            ctx.checked("C15", "time_eq_primary_pred");
+            let want = g[p].ts + g[p].ttn;
+            if !((x.ts - want).abs() <= tol) {
+                ctx.fail("C15", "time_eq_primary_pred", case, format!("node {} scheduled at {} but primary predecessor {} gives {} + {} = {}", i, x.ts, p, g[p].ts, g[p].ttn, want), input.clone());
+            }
+        }
+        for (q, y) in g.iter().enumerate() {
+            if y.next == i || y.next_alt == i {
+                ctx.checked("C15", "time_le_any_pred");
+                // a predecessor allows: its own time plus its duration (an alternate link takes no time)
+                let allow = if y.next == i { y.ts + y.ttn } else { y.ts };
+                if !(x.ts <= allow + tol) {
+                    ctx.fail("C15", "time_le_any_pred", case, format!("node {} scheduled at {} later than predecessor {} allows ({}; link {})", i, x.ts, q, allow, if y.next == i { "idx_next" } else { "idx_next_alt" }), input.clone());
+                }
+            }
+        }
+    }
+}
+
+/// forward pass result = shortest-path times from the start (exact recomputation in topological order)
+fn fwd_shortest_ok(g: &[Nd], depart: f64) -> (bool, String) {
+    let mut v = Verdict::default();
+    if !links_ok(g, &mut v) { return (false, format!("links: {:?}", v.detail)); }
+    if !acyclic(g) { return (false, "cycle".into()); }
+    if g.iter().any(|x| !x.ts.is_finite() || !x.ttn.is_finite()) { return (false, "non-finite".into()); }
+    let n = g.len();
+    // longest-path rank as topological order
+    let mut indeg = vec![0usize; n];
+    for x in g { for (w, _) in succs(x) { indeg[w] += 1; } }
+    let mut order = vec![];
+    let mut st: Vec<usize> = (0..n).filter(|&i| indeg[i] == 0).collect();
+    while let Some(u) = st.pop() { order.push(u); for (w, _) in succs(&g[u]) { indeg[w] -= 1; if indeg[w] == 0 { st.push(w); } } }
+    let mut d = vec![f64::INFINITY; n];
+    d[0] = depart;
+    for &u in &order {
+        if u != 0 {
+            let mut best = f64::INFINITY;
+            for (q, y) in g.iter().enumerate() {
+                if y.next == u { best = best.min(d[q] + y.ttn); }
+                if y.next_alt == u { best = best.min(d[q]); }
+            }
+            d[u] = best;
+        }
+        if d[u] != g[u].ts { return (false, format!("node {}: time_sched {} but shortest path from the start gives {}", u, g[u].ts, d[u])); }
+    }
+    // and the primary predecessor attains it
+    for (i, x) in g.iter().enumerate() {
+        if i == 0 { continue; }
+        let p = &g[x.prev];
+        let via = if p.next == i { p.ts + p.ttn } else { p.ts };
+        if via != x.ts { return (false, format!("node {}: idx_prev {} does not attain the minimum", i, x.prev)); }
+    }
+    (true, String::new())
+}
+
+// ------------------------------------------------------------------------------------------------ passes through the hooks
+
+fn run_forward(g: &[Nd], depart: f64) -> Option<Vec<Nd>> {
+    let mut v = ests(g);
+    guard(|| verif_hooks::verif_update_times_forward(&mut v, uc::S * depart)).map(|_| nds(&v))
+}
+fn run_backward(g: &[Nd]) -> Option<Vec<Nd>> {
+    let mut v = ests(g);
+    guard(|| verif_hooks::verif_update_times_backward(&mut v)).map(|_| nds(&v))
+}
+fn ans_nodes(x: &Option<Vec<Nd>>) -> String {
+    match x { Some(v) => format!("ok {}", nds_tok(v)), None => "panic".into() }
+}
+fn finite_in(g: &[Nd]) -> bool { g.iter().all(|x| x.ttn.is_finite() && x.ttn.abs() < 1e12 && (x.ts.is_nan() || (x.ts.is_finite() && x.ts.abs() < 1e12))) }
+
+/// forward + backward on a pre-pass vector, op lines, checks; returns (mid, post)
+fn drive_passes(ctx: &mut Ctx, tag: &str, pre: &[Nd], depart: f64, input: &serde_json::Value) -> Option<(Vec<Nd>, Vec<Nd>)> {
+    if !finite_in(pre) || !depart.is_finite() { ctx.count("est.pass.skipped_nonfinite"); return None; }
+    let mid = run_forward(pre, depart);
+    let id = ctx.op("C15", "est_forward", &format!("{} {}", nds_tok(pre), f(depart)), &ans_nodes(&mid));
+    ctx.count(&format!("est.pass.{}.forward_{}", tag, if mid.is_some() { "ok" } else { "panic" }));
+    let mid = match mid { Some(m) => m, None => {
+        ctx.checked("C15", "pass_no_panic");
+        ctx.fail("C15", "pass_no_panic", &id, format!("update_times_forward panicked on a well-linked graph: {}", last_panic()), input.clone());
+        return None; } };
+    let relinked = pre.iter().zip(&mid).filter(|(a, b)| a.next != b.next || a.prev != b.prev).count();
+    ctx.count(if relinked > 0 { "est.pass.forward_relinked" } else { "est.pass.forward_no_relink" });
+    ctx.count_n("est.pass.forward_relinked_nodes", relinked as u64);
+    // forward result = shortest path from the start, exactly
+    let (okf, why) = fwd_shortest_ok(&mid, depart);
+    ctx.op("C15", "est_fwd_check", &format!("{} {}", nds_tok(&mid), f(depart)), &format!("ok {}", b(okf)));
+    ctx.checked("C15", "forward_is_shortest_path");
+    if !okf { ctx.fail("C15", "forward_is_shortest_path", &id, why, input.clone()); }
+    let post = run_backward(&mid);
+    let id2 = ctx.op("C15", "est_backward", &nds_tok(&mid), &ans_nodes(&post));
+    ctx.count(&format!("est.pass.{}.backward_{}", tag, if post.is_some() { "ok" } else { "panic" }));
+    let post = match post { Some(p) => p, None => {
+        ctx.checked("C15", "pass_no_panic");
+        ctx.fail("C15", "pass_no_panic", &id2, format!("update_times_backward panicked on the forward pass's output: {}", last_panic()), input.clone());
+        return None; } };
+    ctx.checked("C15", "pass_no_panic");
+    let relinked = mid.iter().zip(&post).filter(|(a, b)| a.next != b.next || a.prev != b.prev).count();
+    ctx.count(if relinked > 0 { "est.pass.backward_relinked" } else { "est.pass.backward_no_relink" });
+    ctx.count_n("est.pass.backward_relinked_nodes", relinked as u64);
+    Some((mid, post))
+}
+
+// ------------------------------------------------------------------------------------------------ checks on a finished graph
+
+struct Case<'a> { adj: &'a [(usize, usize)], origs: &'a [usize], dests: &'a [usize] }
+
+fn check_op(ctx: &mut Ctx, c: &Case, g: &[Nd]) -> (String, Verdict) {
+    let v = oracle(g, c.adj, c.origs, c.dests, TOL);
+    let id = ctx.op("C15", "est_check", &format!("{} {} {} {} {}", adj_tok(c.adj), us_tok(c.origs), us_tok(c.dests), f(TOL), nds_tok(g)), &format!("ok {}", v.bits()));
+    (id, v)
+}
+
+/// every clause of the property on a graph the implementation produced
+fn oracle_final(ctx: &mut Ctx, c: &Case, g: &[Nd], input: &serde_json::Value) -> Verdict {
+    let (id, v) = check_op(ctx, c, g);
+    for cl in ["links_mutual", "walks_reach_end", "route_contiguous", "clear_after_arrive", "times_finite", "durations_nonneg", "time_sched_nonneg", "next_links_tight", "alt_not_later"] {
+        ctx.checked("C15", cl);
+    }
+    ctx.count_n("est.walks_enumerated", v.n_walks as u64);
+    for (cl, d) in &v.detail {
+        ctx.fail("C15", cl, &id, d.clone(), input.clone());
+    }
+    if v.links && v.fin { oracle_time_clauses(ctx, &id, g, TOL, input); }
+    // running time
+    let (first, last) = (g[0].ts, g[g.len() - 1].ts);
+    let hours = (uc::S * last - uc::S * first).get::<altrios_core::si::hour>();
+    ctx.op("C15", "running_time", &format!("{} {}", f(first), f(last)), &format!("ok {}", f(hours)));
+    v
+}
+
+/// mutated copies of a finished graph: the Lean checker and the brute-force oracle must agree on each clause
+fn mutants(ctx: &mut Ctx, r: &mut Rng, c: &Case, g: &[Nd], k: usize) {
+    let n = g.len();
+    for _ in 0..k {
+        let mut h = g.to_vec();
+        let mut adj = c.adj.to_vec();
+        let mut origs = c.origs.to_vec();
+        let mut dests = c.dests.to_vec();
+        let i = r.usize(0, n - 1);
+        let kind = r.usize(0, 13);
+        match kind {
+            0 => { h[i].next = r.usize(0, n - 1); }
+            1 => { h[i].next_alt = r.usize(0, n - 1); }
+            2 => { h[i].prev = r.usize(0, n - 1); }
+            3 => { h[i].prev_alt = r.usize(0, n - 1); }
+            4 => { let x = h[i].next; h[i].next = h[i].next_alt; h[i].next_alt = x; }
+            5 => { h[i].link = r.usize(0, adj.len() - 1); }
+            6 => { h[i].ty = (h[i].ty + r.usize(1, 2) as u8) % 3; }
+            7 => { h[i].ts += *r.pick(&[-64.0, -1.0, 1.0, 64.0, 1e-3, -1e-3]); }
+            8 => { h[i].ttn += *r.pick(&[-64.0, -1.0, 1.0, 64.0]); }
+            9 => { h[i].ts = *r.pick(&[f64::NAN, f64::INFINITY, -1.0]); }
+            10 => { if r.chance(0.5) { let o0 = origs[0]; origs.retain(|&o| o != o0); origs.push(0); } else { let d0 = dests[0]; dests.retain(|&d| d != d0); dests.push(0); } }
+            11 => { let l = r.usize(0, adj.len() - 1); if r.chance(0.5) { adj[l].0 = 0; } else { adj[l] = (adj[l].1, adj[l].0); } }
+            12 => { // drop a clear / arrive node out of its chain (only for plain chain nodes)
+                let x = h[i];
+                if x.ty != 2 && x.next_alt == 0 && x.prev_alt == 0 && x.prev != 0 && x.next != 0 && h[x.prev].next == i && h[x.next].prev == i {
+                    h[x.prev].next = x.next; h[x.next].prev = x.prev; h[i].ty = 2;
+                    // the node stays in the vector as an unreachable fake: links clause must reject
+                }
+            }
+            _ => { // swap the events of two nodes
+                let j = r.usize(0, n - 1);
+                let (l, t) = (h[i].link, h[i].ty); h[i].link = h[j].link; h[i].ty = h[j].ty; h[j].link = l; h[j].ty = t;
+            }
+        }
+        let cm = Case { adj: &adj, origs: &origs, dests: &dests };
+        let (_, v) = check_op(ctx, &cm, &h);
+        let all = v.links && v.walks && v.route && v.fin && v.nonneg && v.tight && v.alt;
+        ctx.count(if all { "est.mutant.accepted" } else { "est.mutant.rejected" });
+        ctx.count(&format!("est.mutant.kind{}.{}", kind, if all { "accepted" } else { "rejected" }));
+    }
+}
+
+/// the same topology with re-drawn durations: exercises relinking decisions and ties
+fn redraw(r: &mut Rng, pre: &[Nd]) -> (Vec<Nd>, f64) {
+    let mut h = pre.to_vec();
+    let mode = r.usize(0, 3);
+    for (i, x) in h.iter_mut().enumerate() {
+        // the zero durations of the construction (start fakes, join fakes, end chain) stay zero
+        let structural_zero = x.ty == 2 && (i <= 1 || x.prev_alt != 0 || x.ttn == 0.0);
+        if structural_zero && !(mode == 3 && i > 1) { continue; }
+        x.ttn = match mode {
+            0 => r.range(0, 6) as f64 * 16.0,          // many ties, zeros
+            1 => r.range(1, 4000) as f64 * 0.125,      // dyadic, exact sums
+            2 => r.f64_in(0.0, 500.0),                 // arbitrary doubles
+            _ => r.range(0, 3) as f64,                 // tiny integers, also on join fakes
+        };
+    }
+    let depart = *r.pick(&[0.0, 0.0, 60.0, 1024.0, 3599.5]);
+    (h, depart)
+}
+
+// ------------------------------------------------------------------------------------------------ source pin
+
+/// `get_running_time_hours` is compiled only with pyo3; its body is pinned textually (regenerated every run)
+fn running_time_source_ok() -> (bool, String) {
+    let p = "/repo/rust/altrios-core/src/meet_pass/est_times/mod.rs";
+    let src = match std::fs::read_to_string(p) { Ok(s) => s, Err(e) => return (false, format!("cannot read {}: {}", p, e)) };
+    let pos = match src.find("pub fn get_running_time_hours") { Some(p) => p, None => return (false, "get_running_time_hours not found".into()) };
+    let rest = &src[pos..];
+    let open = rest.find('{').unwrap_or(0);
+    let mut depth = 0i32;
+    let mut end = rest.len();
+    for (k, ch) in rest.char_indices().skip(open) {
+        if ch == '{' { depth += 1; }
+        if ch == '}' { depth -= 1; if depth == 0 { end = k; break; } }
+    }
+    let body: String = rest[open + 1..end].chars().filter(|c| !c.is_whitespace()).collect();
+    let want = "(self.val.last().unwrap().time_sched-self.val.first().unwrap().time_sched).get::<si::hour>()";
+    (body == want, format!("body of get_running_time_hours is `{}`", body))
+}
+
+// ------------------------------------------------------------------------------------------------ scenarios
+
+struct Scen { en: EstNet, east: bool, origs: Vec<Location>, dests: Vec<Location>, depart: f64, train: SpeedLimitTrainSim, desc: serde_json::Value }
+
+fn gen_scen(r: &mut Rng, big: bool) -> Scen {
+    let n_main = r.usize(1, if big { 8 } else { 5 });
+    let max_sid = if big { 4 } else { 3 };
+    let mut siding_at = vec![];
+    let mut k = 0;
+    let p_sid = *r.pick(&[0.0, 0.4, 0.7, 1.0]);
+    while k < n_main && siding_at.len() < max_sid {
+        if r.chance(p_sid) { siding_at.push((k, r.usize(1, 2))); k += 2; } else { k += 1; }
+    }
+    let equal = r.chance(0.15);
+    let en = gen_est_net(r, n_main, &siding_at, equal);
+    let east = r.chance(0.5);
+    let mains: Vec<u32> = if east { en.main_fwd.clone() } else { en.main_rev.iter().rev().cloned().collect() };
+    // sidings in travel order: (position along `mains`, links in travel order)
+    let sid: Vec<(usize, Vec<u32>)> = en.sidings.iter().map(|s| if east { (s.0, s.1.clone()) } else { (n_main - 1 - s.0, s.2.clone()) }).collect();
+    let ko = if n_main > 2 && r.chance(0.15) { 1 } else { 0 };
+    let kd = if n_main - ko > 2 && r.chance(0.15) { n_main - 2 } else { n_main - 1 };
+    let mut origs = vec![location("O", mains[ko])];
+    let mut dests = vec![location("D", mains[kd])];
+    for s in &sid {
+        if s.0 == ko && r.chance(0.8) { origs.push(location("O2", s.1[0])); }
+        if s.0 == kd && r.chance(0.8) { dests.push(location("D2", *s.1.last().unwrap())); }
+    }
+    // an origin from which no destination can be reached, a destination that cannot be reached (both are dropped / harmless)
+    if r.chance(0.15) { let other = if east { en.main_rev[0] } else { en.main_fwd[0] }; origs.push(location("Ox", other)); }
+    if r.chance(0.1) && kd + 1 < n_main { dests.push(location("Dx", mains[n_main - 1])); }
+    if r.chance(0.3) { origs.reverse(); }
+    if r.chance(0.3) { dests.reverse(); }
+    let depart = if r.chance(0.35) { 0.0 } else { r.range(0, 40) as f64 * 60.0 };
+    let train = gen_train(r, "T", origs.clone(), dests.clone(), depart);
+    let desc = json!({"n_main": n_main, "sidings": siding_at, "equal_sidings": equal, "east": east, "depart_s": depart,
+        "origs": origs.iter().map(|o| o.link_idx.idx()).collect::<Vec<_>>(), "dests": dests.iter().map(|o| o.link_idx.idx()).collect::<Vec<_>>(),
+        "train_length_m": train.state.length.value,
+        "links": en.net.iter().map(|l| json!([l.idx_curr.idx(), l.idx_next.idx(), l.idx_next_alt.idx(), l.idx_prev.idx(), l.idx_prev_alt.idx(), l.length.value])).collect::<Vec<_>>()});
+    Scen { en, east, origs, dests, depart, train, desc }
+}
+
+fn scenario(ctx: &mut Ctx, r: &mut Rng, big: bool, n_redraw: usize, n_mut: usize) {
+    let sc = gen_scen(r, big);
+    if let Err(e) = sc.en.net.validate() {
+        ctx.count("est.net_invalid");
+        ctx.sample("est.net_invalid", json!(format!("{:?}", e).chars().take(300).collect::<String>()));
+        return;
+    }
+    ctx.count(&format!("est.scen.sidings.{}", sc.en.sidings.len()));
+    ctx.count(&format!("est.scen.n_origs.{}", sc.origs.len()));
+    ctx.count(&format!("est.scen.n_dests.{}", sc.dests.len()));
+    ctx.count(if sc.east { "est.scen.eastbound" } else { "est.scen.westbound" });
+    ctx.count(if sc.depart == 0.0 { "est.scen.depart_zero" } else { "est.scen.depart_later" });
+    let pre: Rc<RefCell<Option<(Vec<EstTime>, f64)>>> = Rc::new(RefCell::new(None));
+    let p2 = pre.clone();
+    verif_hooks::set_pre_pass_observer(Some(Box::new(move |v, t| { *p2.borrow_mut() = Some((v.to_vec(), t.value)); })));
+    let res = guard(|| make_est_times(sc.train.clone(), &sc.en.net));
+    verif_hooks::set_pre_pass_observer(None);
+    let input = json!({"kind": "scenario", "scenario": sc.desc, "how": "b_est::gen_scen with the case's sub-seed; network/train as listed"});
+    let et = match res {
+        Some(Ok((et, _))) => et,
+        Some(Err(e)) => {
+            ctx.count("est.construction_err");
+            ctx.sample("est.construction_err", json!({"err": format!("{:?}", e).chars().take(300).collect::<String>(), "scenario": sc.desc}));
+            return;
+        }
+        None => {
+            // construction aborted: outside the quantifier ("for which construction succeeds"), recorded
+            ctx.count("est.construction_panic");
+            ctx.sample("est.construction_panic", json!({"panic": last_panic(), "scenario": sc.desc}));
+            return;
+        }
+    };
+    ctx.count("est.construction_ok");
+    let fin = nds(&et.val);
+    ctx.count_n("est.nodes", fin.len() as u64);
+    let adj = adj_of(&sc.en.net);
+    let origs: Vec<usize> = sc.origs.iter().map(|o| o.link_idx.idx()).collect();
+    let dests: Vec<usize> = sc.dests.iter().map(|o| o.link_idx.idx()).collect();
+    let c = Case { adj: &adj, origs: &origs, dests: &dests };
+    let n_split = fin.iter().filter(|x| x.next_alt != 0).count();
+    let n_join = fin.iter().filter(|x| x.prev_alt != 0).count();
+    ctx.count(&format!("est.graph.splits.{}", n_split.min(6)));
+    ctx.count(&format!("est.graph.joins.{}", n_join.min(6)));
+    if n_split > 0 { ctx.count("est.graph.with_alternatives"); } else { ctx.count("est.graph.single_route"); }
+
+    // the property's clauses on the real output
+    let v = oracle_final(ctx, &c, &fin, &json!({"kind": "scenario", "scenario": sc.desc, "nodes": nds_json(&fin)}));
+    ctx.sample("est.graph", json!({"scenario": sc.desc, "n_nodes": fin.len(), "walks": v.n_walks, "verdict": v.bits()}));
+
+    // the passes, driven by hand from the observed pre-pass vector, reproduce the real result
+    let (pre_v, depart) = match pre.borrow().clone() { Some(p) => p, None => { ctx.fail("C15", "hook", "scenario", "pre-pass observer was not called".into(), input.clone()); return; } };
+    let pre_n = nds(&pre_v);
+    let pin = json!({"kind": "passes", "scenario": sc.desc, "pre_pass_nodes": nds_json(&pre_n), "time_depart": depart});
+    if let Some((_mid, post)) = drive_passes(ctx, "real", &pre_n, depart, &pin) {
+        ctx.checked("C15", "manual_passes_equal_real");
+        if !same_nds(&post, &fin) {
+            ctx.fail("C15", "manual_passes_equal_real", "scenario", "update_times_forward/backward through the hook wrappers differ from make_est_times's own result".into(), pin.clone());
+        }
+    }
+    // same topology, re-drawn durations: passes + every time/structure clause again on the result
+    for _ in 0..n_redraw {
+        let (h, dep) = redraw(r, &pre_n);
+        let rin = json!({"kind": "passes_redrawn", "pre_pass_nodes": nds_json(&h), "time_depart": dep, "track": adj, "origs": origs, "dests": dests});
+        if let Some((_m, post)) = drive_passes(ctx, "redrawn", &h, dep, &rin) {
+            let (id, v) = check_op(ctx, &c, &post);
+            for cl in ["links_mutual", "walks_reach_end", "route_contiguous", "clear_after_arrive", "times_finite", "durations_nonneg", "time_sched_nonneg", "next_links_tight", "alt_not_later"] {
+                ctx.checked("C15", cl);
+            }
+            for (cl, d) in &v.detail { ctx.fail("C15", cl, &id, d.clone(), rin.clone()); }
+            if v.links && v.fin { oracle_time_clauses(ctx, &id, &post, TOL, &rin); }
+        }
+    }
+    mutants(ctx, r, &c, &fin, n_mut);
 }
 
 pub fn run(ctx: &mut Ctx, r: &mut Rng, tier: &str) {
-    let n = if tier == "thorough" { 40 } else { 8 };
-    for ci in 0..n {
+    ctx.checked("C15", "running_time_source");
+    let (ok, what) = running_time_source_ok();
+    if !ok {
+        ctx.fail("C15", "running_time_source", "source", format!("get_running_time_hours no longer returns last minus first scheduled time in hours: {}", what), json!({"file": "rust/altrios-core/src/meet_pass/est_times/mod.rs"}));
+    }
+    let (n, n_redraw, n_mut) = if tier == "thorough" { (700, 8, 10) } else { (60, 5, 6) };
+    for i in 0..n {
         let mut rr = r.fork();
-        let n_main = rr.usize(2, 5);
-        let mut siding_at = vec![];
-        let mut k = 0;
-        while k < n_main {
-            if rr.chance(0.5) { siding_at.push((k, rr.usize(1, 2))); k += 2; } else { k += 1; }
-        }
-        let en = gen_est_net(&mut rr, n_main, &siding_at);
-        if let Err(e) = en.net.validate() { ctx.count("est.net_invalid"); ctx.sample("est.net_invalid", json!(format!("{:?}", e).chars().take(300).collect::<String>())); continue; }
-        let east = rr.chance(0.5);
-        let (mains, sid): (&Vec<u32>, Vec<(usize, Vec<u32>)>) = if east { (&en.main_fwd, en.sidings.iter().map(|s| (s.0, s.1.clone())).collect()) } else { (&en.main_rev, en.sidings.iter().map(|s| (s.0, s.2.clone())).collect()) };
-        let (ko, kd) = if east { (0, n_main - 1) } else { (n_main - 1, 0) };
-        let mut origs = vec![location("O", mains[ko])];
-        let mut dests = vec![location("D", mains[kd])];
-        for s in &sid {
-            if s.0 == ko { origs.push(location("O2", s.1[0])); }
-            if s.0 == kd { dests.push(location("D2", *s.1.last().unwrap())); }
-        }
-        let depart = if rr.chance(0.3) { 0.0 } else { rr.range(0, 40) as f64 * 60.0 };
-        let train = gen_train(&mut rr, "T", origs.clone(), dests.clone(), depart);
-        let pre: Rc<RefCell<Option<(Vec<EstTime>, f64)>>> = Rc::new(RefCell::new(None));
-        let p2 = pre.clone();
-        verif_hooks::set_pre_pass_observer(Some(Box::new(move |v, t| { *p2.borrow_mut() = Some((v.to_vec(), t.value)); })));
-        let t0 = std::time::Instant::now();
-        let res = guard(|| make_est_times(train.clone(), &en.net));
-        verif_hooks::set_pre_pass_observer(None);
-        let dt = t0.elapsed().as_secs_f64();
-        match res {
-            Some(Ok((et, _))) => {
-                ctx.count("est.ok");
-                let pre = pre.borrow().clone().unwrap();
-                ctx.sample("est.graph", json!({"case": ci, "secs": dt, "n_main": n_main, "sidings": siding_at, "east": east, "len": train.state.length.value,
-                    "origs": origs.iter().map(|o| o.link_idx.idx()).collect::<Vec<_>>(), "dests": dests.iter().map(|o| o.link_idx.idx()).collect::<Vec<_>>(),
-                    "links": en.net.iter().map(|l| (l.idx_curr.idx(), l.idx_next.idx(), l.idx_next_alt.idx(), l.length.value)).collect::<Vec<_>>(),
-                    "depart": depart, "pre": dump(&pre.0), "post": dump(&et.val)}));
-                eprintln!("case {} ok nodes={} secs={:.2}", ci, et.val.len(), dt);
-            }
-            Some(Err(e)) => { ctx.count("est.err"); ctx.sample("est.err", json!(format!("{:?}", e).chars().take(400).collect::<String>())); eprintln!("case {} err", ci); }
-            None => { ctx.count("est.panic"); ctx.sample("est.panic", json!(last_panic())); eprintln!("case {} panic {}", ci, last_panic()); }
-        }
+        scenario(ctx, &mut rr, tier == "thorough" && i % 3 == 0, n_redraw, n_mut);
     }
 }
